@@ -55,6 +55,18 @@ ArchiveListing(bucket, y, m, d, site) ==
 (* download: response class by HTTP status *)
 GetOutcome(status) == IF status = 200 THEN "ok" ELSE IF status = 404 THEN "notfound" ELSE "err"
 
+(* transport.  A response body arrives as a sequence of frames; Frames(b) is every way of cutting the byte (or
+   code-unit) sequence b into non-empty pieces.  What a listing or a download returns is a function of the
+   concatenation only (FrameInvariance: the wrappers above take the body, not its framing) -- in particular a
+   multi-byte character of a key may straddle a frame boundary.  A body whose connection closes before the
+   announced length has arrived is a failed transfer: the download is an error, never an Ok with other bytes. *)
+RECURSIVE Frames(_)
+Frames(b) == IF b = <<>> THEN {<<>>} ELSE UNION {{<<SubSeq(b, 1, n)>> \o f : f \in Frames(SubSeq(b, n + 1, Len(b)))} : n \in 1..Len(b)}
+RECURSIVE Concat(_)
+Concat(fs) == IF fs = <<>> THEN <<>> ELSE Head(fs) \o Concat(Tail(fs))
+FrameInvariance(b) == \A f \in Frames(b) : Concat(f) = b
+GetOutcomeT(status, complete) == IF status = 200 /\ ~complete THEN "err" ELSE GetOutcome(status)
+
 -----------------------------------------------------------------------------
 (* the listing-response parser as the event machine the code is.  An XML event is
    <<"S", name>> | <<"C", text>> | <<"E", name>>; text is a TLA+ string here. *)
